@@ -249,6 +249,7 @@ def differential(ctx, plan, only_job=None, cfg_override=None, label="run"):
     if errors:
         raise RuntimeError("coq evaluation failed: " + errors[0][1])
     bad = set(failing["L1"])
+    attr_cache = {}
     for idx, (si, job, cfgs, results, lab, okind) in enumerate(meta):
         pydiff = any((r[0], r[1][lab]) != (results[0][0], results[0][1][lab]) for r in results[1:])
         if pydiff != (idx in bad):
@@ -256,7 +257,12 @@ def differential(ctx, plan, only_job=None, cfg_override=None, label="run"):
         if idx not in bad:
             continue
         kind, seed, params, d, _ = scns[si]
-        dim, i = attribute(ctx, job, cfgs, results, lab, os.path.join(d, "out", job.name, "attr-" + lab))
+        cached = attr_cache.get((si, job.name))
+        if cached and (results[cached[1]][0], results[cached[1]][1][lab]) != (results[0][0], results[0][1][lab]):
+            dim, i = cached        # same differing run as for another output of this job
+        else:
+            dim, i = attribute(ctx, job, cfgs, results, lab, os.path.join(d, "out", job.name, "attr-" + lab))
+            attr_cache[(si, job.name)] = (dim, i)
         a, b = results[0][1][lab], results[i][1][lab]
         if results[0][0] != results[i][0]:
             diff = "exit-status"
